@@ -41,7 +41,9 @@ type TermLocations []*TermLocation
 func (t TermLocations) Len() int      { return len(t) }
 func (t TermLocations) Swap(i, j int) { t[i], t[j] = t[j], t[i] }
 func (t TermLocations) Less(i, j int) bool {
-	return t[i].Start < t[j].Start
+	// total on (Start, End): sort.Sort is not stable and the locations come out of a map, so
+	// locations that compare equal end up in a random order
+	return t[i].Start < t[j].Start || (t[i].Start == t[j].Start && t[i].End < t[j].End)
 }
 
 func (t TermLocations) MergeOverlapping() {
